@@ -483,6 +483,28 @@ def solo_row(h, t, flags):
     return "(%s, %d, %s, %s)" % (gdef(flags), h["init"], glist(ops), glist(obs))
 
 
+# ------------------------------------------------------------------------------------------- SyncCFTBlocks
+
+def gen_sync(r):
+    f = r.choice([0, 1, 2, 3, 5, 7, 16])
+    b = r.choice([0, 1, 2, r.randrange(0, 50), r.randrange(0, 10**9), MAXU - r.randrange(0, 200), 2**63 - 3])
+    span = r.choice([0, 1, (f or 5) - 1, f or 5, 2 * (f or 5) + 1, r.randrange(0, 60)])
+    e = min(MAXU, b + span)
+    if r.random() < 0.08 and b > 0:
+        e = r.randrange(0, b)
+    peers = r.choice([1, 2, 3, 4])
+    nreq = max(1, span // (f or 5) + 2)
+    faults = sorted(set(r.randrange(1, nreq + 2) for _ in range(r.randrange(0, peers))))[:peers - 1]
+    return dict(kind="sync", fetch=f, begin=b, end=e, peers=peers, faults=faults)
+
+
+def sync_row(h, t, wrap):
+    ok = [q for q in t["reqs"] if q[3] == 1]
+    return "(%s, (%d, %d, %d), %d%%nat, %s, %s, %s)" % (
+        "true" if wrap else "false", h["fetch"] or 5, h["begin"], h["end"], len(ok) + 2,
+        glist(ok, lambda q: "(%d, %d)" % (q[0], q[1])), glist(t["emit"]), "true" if t["err"] else "false")
+
+
 # ------------------------------------------------------------------------------------------- deciding
 
 def resolved_log(h, t):
@@ -534,7 +556,9 @@ def own_reproposal(h, t):
 
 
 def order_flags(known):
-    return {flag: (fid in known) for fid, flag in FLAG_OF_FINDING.items()}
+    d = {flag: (fid in known) for fid, flag in FLAG_OF_FINDING.items()}
+    d["wrap"] = "C20-ranges-overflow" in known
+    return d
 
 
 def decide_raft(ctx, known, h, t, v):
@@ -593,9 +617,15 @@ def run_order_batch(exe, hs, isolate=True):
 
 def judge_order(hs, outs, flags):
     """-> verdict list aligned with hs (None entries for histories whose driver run failed)"""
-    rows_r, idx_r, rows_s, idx_s = [], [], [], []
+    rows_r, idx_r, rows_s, idx_s, rows_y, idx_y = [], [], [], [], [], []
     vs = [None] * len(hs)
     for i, (h, t) in enumerate(zip(hs, outs)):
+        if h["kind"] == "sync":
+            if t.get("hang") or "reqs" not in t:
+                vs[i] = (8, 0)
+            else:
+                rows_y.append(sync_row(h, t, flags.get("wrap", False))); idx_y.append(i)
+            continue
         if t.get("err") or not t.get("steps"):
             vs[i] = (9, 0)
             continue
@@ -617,6 +647,13 @@ def judge_order(hs, outs, flags):
         if res is None:
             return None, msg
         for i, v in zip(idx_r, res):
+            vs[i] = v
+    if rows_y:
+        res, msg = vlib.coq_judge_sharded("C20_sync", "From BX Require Import Base.Prelude Model.Ranges.\nLocal Open Scope N_scope.",
+                                          "sync_case", "judge_sync", rows_y, shard=300)
+        if res is None:
+            return None, msg
+        for i, v in zip(idx_y, res):
             vs[i] = v
     if rows_s:
         res, msg = vlib.coq_judge_sharded("C20_solo", ORDER_PRE, "solo_case", "judge_solo", rows_s, shard=300)
@@ -675,7 +712,7 @@ def run_order(ctx, known):
         except ValueError:
             continue
         for hh in (obj if isinstance(obj, list) else [obj]):
-            if isinstance(hh, dict) and hh.get("kind") in ("raft", "solo", "raftreal"):
+            if isinstance(hh, dict) and hh.get("kind") in ("raft", "solo", "raftreal", "sync"):
                 hh = dict(hh); hh["corpus"] = os.path.basename(f)
                 hs.append(hh)
     n_corpus = len(hs)
@@ -685,6 +722,7 @@ def run_order(ctx, known):
     hs += [gen_crashpoints(r) for _ in range(n_raft // 2)]
     hs += [gen_solo(r) for _ in range(n_solo)]
     hs += [gen_real(r) for _ in range(n_real)]
+    hs += [gen_sync(r) for _ in range(60 if ctx.quick else 3000)]
     outs, msg = run_order_batch(exe, hs)
     if outs is None:
         ctx.broken("driver:order", msg)
@@ -697,6 +735,28 @@ def run_order(ctx, known):
     reported = set()
     for i, (h, t, v) in enumerate(zip(hs, outs, vs)):
         kind = h["kind"]
+        if kind == "sync":
+            ctx.count(case_key=("sync", h["fetch"], h["begin"], h["end"], tuple(h["faults"])), nontrivial=len(t.get("reqs") or []) >= 2,
+                      sample=dict(driver="sync", history=h, impl=t, verdict=v) if dist.get("sync", 0) < 1 else None)
+            ctx.traces_validated += 1
+            dist["sync"] = dist.get("sync", 0) + 1
+            dist["sync:faulty_requests"] = dist.get("sync:faulty_requests", 0) + sum(1 for q in (t.get("reqs") or []) if q[3] == 0)
+            if v[0] == 0:
+                continue
+            rep = dict(property="C20", driver="order", history=h, impl=t, verdict=v)
+            key = ("sync", v[0])
+            if key in reported:
+                continue
+            reported.add(key)
+            if v[0] == 8:
+                ctx.violation("SyncCFTBlocks does not finish", rep)
+            elif v[0] == 2:
+                ctx.violation("SyncCFTBlocks does not request / emit every height of [begin,end] exactly once in ascending order", rep)
+            elif v[0] == 1:
+                ctx.broken("correspondence:judge_sync", json.dumps(rep)[:1500])
+            else:
+                ctx.broken("domain:judge_sync", json.dumps(rep)[:1500])
+            continue
         nev = sum(len(s["ev"]) for s in t.get("steps", []))
         ncrash = sum(1 for op in h["ops"] if op[0] == "crash")
         skipped = kind == "raft" and any(s.get("r") and len(s["r"]) == 3 and s["r"][1] >= s["r"][0] for s in t.get("steps", [])) and \
@@ -772,6 +832,8 @@ def replay(ctx, path):
         if exe is None:
             print(err)
             return 1
+        vlib.run_extractor()
+        vlib.coq_build(["theories/Model/Order.vo", "theories/Model/Ranges.vo"])
         h = obj["history"]
         outs, msg = run_order_batch(exe, [h])
         if outs is None:
